@@ -6,10 +6,7 @@ from .readerlib import dump_dict, canon
 ID = 'C18'
 TARGETS = ['theories/Properties/C18.vo']
 THEOREMS = core.theorems_of(ID)
-LEVEL = ('entry-level model of peppi::write/read (Model/Slpp.v) with tar, serde_json and Arrow IPC as parameters; proved: entry order and presence conditions, '
-         'raw and JSON entries are the retained block and its rendering, the file signature is the first entry name at offset 0 of the tar bytes, unknown entries '
-         'are ignored wherever they stand before frames.arrow, format versions below the minimum are rejected, the writer is a function (deterministic); the byte-level '
-         'tar model predicts the real archive byte for byte from the opaque JSON/Arrow blobs (tar/serde/arrow2 themselves: exercised, not proved: partial)')
+LEVEL = ('proved (Properties/C18.v): entry order, presence conditions, raw/JSON consistency, file signature at offset 0 of the tar bytes, unknown entries ignored, old format version rejected -- and the same through the tables regenerated from the .slpp writer (tar_append sequence with guards) and reader (name match arms, breaking arm) on every run; tar block model predicts the archive byte for byte in the differential run; archives with unknown entries (incl. names without a UTF-8 file name), patched versions (both read modes) and the deepest accepted metadata are read by the real library')
 UNKNOWN = [b'notes.txt', b'extras/thumb.png', b'zzz', b'start.jso', b'PEPPI.JSON', b'frames.arrow.bak', b'a' * 99,
            b'./', b'extras/', b'..', b'\xff\xfe.bin', b'caf\xe9/\x80', b'.']   # names without a (UTF-8) file name are unknown entries too
 
